@@ -235,6 +235,14 @@ impl Session {
     /// Observe the full visible state at the latest sequence and at every live snapshot and
     /// through every live iterator.
     pub fn observe(&mut self) {
+        self.observe_with(false)
+    }
+
+    pub fn observe_final(&mut self) {
+        self.observe_with(true)
+    }
+
+    pub fn observe_with(&mut self, is_final: bool) {
         let db = self.db.as_ref().unwrap();
         let u = Arc::clone(&self.u);
         let limit = self.scan_limit;
@@ -270,6 +278,7 @@ impl Session {
                     "bwd": scan_json(&bwd),
                     "fwdok": fwd.is_ok(),
                     "bwdok": bwd.is_ok(),
+                    "final": is_final,
                     "errs": errs.len(),
                 }),
             );
@@ -633,7 +642,7 @@ pub fn run_hist(
     let first_event = sink.len();
     sink.emit_json(
         "Reset",
-        json!({"run": run_no, "seed": cfg.seed, "nk": u.n(), "driver": "hist"}),
+        json!({"run": run_no, "seed": cfg.seed, "nk": u.n(), "driver": "hist", "tag": ""}),
     );
     let mut sess = Session {
         opens: vec![],
